@@ -525,3 +525,38 @@ Section Inv.
     - rewrite Cn. eapply (pass_complete_lemma ht par blk hb base stale Hblk Hpar); [exact S | exact Ps | exact X | exact St].
   Qed.
 End Inv.
+
+(** ** the sort key matters
+    [inflight_eventually_connected_lemma] needs the in-flight view to be sorted by the height of the CARRIED block
+    ([hb (blk q) = ht q], as coded: containing block / block of proof / the block itself). With any other key it is
+    false. Witness: payload 1 carries block 12 (parent 11) and has key 5, payload 2 carries block 11 (parent 10)
+    and has key 8 (e.g. the heights of the ENDORSED blocks); both are in flight, block 10 arrives: the pass
+    re-tries 1 before 2, connects 2 only, and 1 stays in flight although its parent 11 is now present. *)
+Definition wk_key (q : N) : N := if q =? 1 then 5 else if q =? 2 then 8 else 0.
+Definition wk_blk (q : N) : N := if q =? 1 then 12 else if q =? 2 then 11 else 1.
+Definition wk_par (q : N) : N := if q =? 1 then 11 else if q =? 2 then 10 else 0.
+Definition wk_ops : list pop := [Submit [] Fine 2; Submit [] Fine 1].
+
+Lemma inflight_other_key_refuted_lemma :
+  (forall q, wk_par q < wk_blk q) /\
+  contract wk_key wk_par wk_blk pempty wk_ops /\
+  exists s s',
+    prun wk_key wk_par wk_blk pempty wk_ops = POk s /\
+    tryConnect wk_key wk_par wk_blk [10] [] s = POk s' /\
+    inflight s' 1 = true /\ mem 1 [] = false /\
+    present wk_blk [10] (conn s') (wk_par 1) = true.
+Proof.
+  split.
+  - intro q. unfold wk_par, wk_blk. destruct (q =? 1); [reflexivity|]. destruct (q =? 2); reflexivity.
+  - split; [vm_compute; repeat split; reflexivity|].
+    eexists. eexists. split; [vm_compute; reflexivity|]. split; [vm_compute; reflexivity|].
+    repeat split; vm_compute; reflexivity.
+Qed.
+
+(** the same history with the key of the code (height of the carried block): both connect *)
+Example inflight_carried_key_witness :
+  exists s s',
+    prun wk_blk wk_par wk_blk pempty wk_ops = POk s /\
+    tryConnect wk_blk wk_par wk_blk [10] [] s = POk s' /\
+    inflight s' 1 = false /\ inflight s' 2 = false /\ connected s' 1 = true /\ connected s' 2 = true.
+Proof. eexists. eexists. split; [vm_compute; reflexivity|]. split; [vm_compute; reflexivity|]. repeat split; vm_compute; reflexivity. Qed.
